@@ -653,6 +653,25 @@ func (g *FnGen) evalCall(x ECall, ctx *EvalCtx) Val {
 	case "base":
 		v := g.eval(x.Args[0], ctx)
 		return Val{T: "(s_base " + v.T + ")", S: sortRef}
+	case "str":
+		// str(p): the string spelled by the bytes of slice p (same term as the conversion string(p))
+		v := g.eval(x.Args[0], ctx)
+		if v.S == sortStr {
+			return v
+		}
+		if v.S != sortSlice || v.Go == nil {
+			efail("str expects a byte slice")
+		}
+		et := v.Go.Underlying().(*types.Slice).Elem()
+		k := g.D.memKeyT(et)
+		return Val{T: fmt.Sprintf("(bytes2str (s_base %s) (s_off %s) (s_len %s) %s)", v.T, v.T, v.T, sel(g.D.get(ctx.st, k), "(s_base "+v.T+")")), S: sortStr, Go: types.Typ[types.String]}
+	case "cat":
+		a := g.eval(x.Args[0], ctx)
+		b := g.eval(x.Args[1], ctx)
+		if a.S != sortStr || b.S != sortStr {
+			efail("cat expects two strings")
+		}
+		return Val{T: fmt.Sprintf("(scat %s %s)", a.T, b.T), S: sortStr, Go: types.Typ[types.String]}
 	case "sum":
 		// sum(k, lo, hi, body): the wrapping machine sum of body for k = lo .. hi-1. It is an
 		// uninterpreted function of (lo, hi) whose symbol is determined by the body term (which
